@@ -82,22 +82,22 @@ LIN = ("Wing-Gong linearizability search of the recorded history (sequential pre
 
 PROPS = {
     "C01": instr([part("e1", "^TestC01$", 2500, 60000, steps=60, tsteps=90)], E1_RULE + "Oracle: TTL reference model, step by step."),
-    "C02": instr([part("e2", "^TestC02$", 350, 2500), part("long", "^TestC02L$", 40, 600)], E2_RULE + "Oracle: " + LIN + " (long) generated LONG programs: 2-4 threads x 60-300 calls each on DISJOINT key sets (fill / churn / drain phases so that the shared table grows and shrinks several times while the others work; colliding hashers give shared chains) x 9 (quick) / 30 (thorough) sampled schedules (random walks 1/4..1/256, PCT with 4-13 change points, kind-directed pauses at the first Cond.Wait / Broadcast); oracle: every call of a thread must agree exactly with that thread's own sequential reference model (nobody else touches its keys; a traversal must show each of its live keys exactly once), quiescent Size == traversal == point lookups; non-trivial = a resize completed during the execution with at least one preemptive switch."),
-    "C03": instr([part("e2", "^TestC03$", 450, 2500), part("long", "^TestC03L$", 40, 600)], E2_RULE + "Oracle: " + LIN + " (long) generated LONG programs: 2-4 threads x 60-300 calls each on DISJOINT key sets (fill / churn / drain phases so that the shared table grows and shrinks several times while the others work; colliding hashers give shared chains) x 9 (quick) / 30 (thorough) sampled schedules (random walks 1/4..1/256, PCT with 4-13 change points, kind-directed pauses at the first Cond.Wait / Broadcast); oracle: every call of a thread must agree exactly with that thread's own sequential reference model (nobody else touches its keys; a traversal must show each of its live keys exactly once), quiescent Size == traversal == point lookups; non-trivial = a resize completed during the execution with at least one preemptive switch."),
-    "C04": instr([part("e2", "^TestC04$", 450, 2500), part("long", "^TestC04L$", 40, 600)], E2_RULE + "Oracle: " + LIN + " (long) generated LONG programs: 2-4 threads x 60-300 calls each on DISJOINT key sets (fill / churn / drain phases so that the shared table grows and shrinks several times while the others work; colliding hashers give shared chains) x 9 (quick) / 30 (thorough) sampled schedules (random walks 1/4..1/256, PCT with 4-13 change points, kind-directed pauses at the first Cond.Wait / Broadcast); oracle: every call of a thread must agree exactly with that thread's own sequential reference model (nobody else touches its keys; a traversal must show each of its live keys exactly once), quiescent Size == traversal == point lookups; non-trivial = a resize completed during the execution with at least one preemptive switch."),
-    "C05": instr([part("e2", "^TestC05$", 300, 2500)], E2_RULE + "All thread calls target ONE key (absent, live or expired-uncleaned). Oracle: " + LIN),
-    "C06": instr([part("e1", "^TestC06E1$", 2500, 60000, steps=60, tsteps=90), part("e2", "^TestC06E2$", 300, 2000)],
+    "C02": instr([part("e2", "^TestC02$", 500, 2500), part("long", "^TestC02L$", 40, 600)], E2_RULE + "Oracle: " + LIN + " (long) generated LONG programs: 2-4 threads x 60-300 calls each on DISJOINT key sets (fill / churn / drain phases so that the shared table grows and shrinks several times while the others work; colliding hashers give shared chains) x 9 (quick) / 30 (thorough) sampled schedules (random walks 1/4..1/256, PCT with 4-13 change points, kind-directed pauses at the first Cond.Wait / Broadcast); oracle: every call of a thread must agree exactly with that thread's own sequential reference model (nobody else touches its keys; a traversal must show each of its live keys exactly once), quiescent Size == traversal == point lookups; non-trivial = a resize completed during the execution with at least one preemptive switch."),
+    "C03": instr([part("e2", "^TestC03$", 600, 2500), part("long", "^TestC03L$", 40, 600)], E2_RULE + "Oracle: " + LIN + " (long) generated LONG programs: 2-4 threads x 60-300 calls each on DISJOINT key sets (fill / churn / drain phases so that the shared table grows and shrinks several times while the others work; colliding hashers give shared chains) x 9 (quick) / 30 (thorough) sampled schedules (random walks 1/4..1/256, PCT with 4-13 change points, kind-directed pauses at the first Cond.Wait / Broadcast); oracle: every call of a thread must agree exactly with that thread's own sequential reference model (nobody else touches its keys; a traversal must show each of its live keys exactly once), quiescent Size == traversal == point lookups; non-trivial = a resize completed during the execution with at least one preemptive switch."),
+    "C04": instr([part("e2", "^TestC04$", 600, 2500), part("long", "^TestC04L$", 40, 600)], E2_RULE + "Oracle: " + LIN + " (long) generated LONG programs: 2-4 threads x 60-300 calls each on DISJOINT key sets (fill / churn / drain phases so that the shared table grows and shrinks several times while the others work; colliding hashers give shared chains) x 9 (quick) / 30 (thorough) sampled schedules (random walks 1/4..1/256, PCT with 4-13 change points, kind-directed pauses at the first Cond.Wait / Broadcast); oracle: every call of a thread must agree exactly with that thread's own sequential reference model (nobody else touches its keys; a traversal must show each of its live keys exactly once), quiescent Size == traversal == point lookups; non-trivial = a resize completed during the execution with at least one preemptive switch."),
+    "C05": instr([part("e2", "^TestC05$", 450, 2500)], E2_RULE + "All thread calls target ONE key (absent, live or expired-uncleaned). Oracle: " + LIN),
+    "C06": instr([part("e1", "^TestC06E1$", 2500, 60000, steps=60, tsteps=90), part("e2", "^TestC06E2$", 450, 2000)],
                  "Two engines. (e1) " + E1_RULE + "(e2) " + E2_RULE + "Oracle: callback ledger against the model's must/may sets (e1), ledger inside the linearizability check (e2). " + LIN),
-    "C07": instr([part("e1", "^TestC07E1$", 1200, 40000), part("e2", "^TestC07E2$", 250, 2000)],
+    "C07": instr([part("e1", "^TestC07E1$", 1200, 40000), part("e2", "^TestC07E2$", 400, 2000)],
                  "Two engines. (e1) generated contents (1..3000 keys via bulk inserts/deletes/Clear, long chains under constant/low-bits hashers, expired-uncleaned "
                  "entries for caches) on all four containers, then ONE traversal whose visitor stops after n calls and/or stores, deletes (and for caches advances the clock) "
                  "on the container it traverses; oracle: each key at most once, only with a value it held during the traversal, every untouched live key exactly once, no "
                  "call after false, exact read-back afterwards; non-trivial = visitor mutates or stops, or overflow buckets exist, or thousands of keys; distinct by hash of "
                  "the call list. (e2) " + E2_RULE + "Thread 0 starts with a traversal racing writers/Clear/resizes; per-key pseudo-reads inside the linearizability check. " + LIN),
-    "C08": instr([part("e1", "^TestC08E1$", 2500, 60000, steps=60, tsteps=90), part("e2", "^TestC08E2$", 250, 2000), part("long", "^TestC08L$", 40, 600)],
+    "C08": instr([part("e1", "^TestC08E1$", 2500, 60000, steps=60, tsteps=90), part("e2", "^TestC08E2$", 350, 2000), part("long", "^TestC08L$", 40, 600)],
                  "Two engines. (e1) " + E1_RULE + "(e2) " + E2_RULE + "Oracle: at every quiescent point Size()/Count() == Range visits == successful Loads == model (maps), Count interval / exact after DeleteExpired / 0 after Clear (caches). " + LIN),
     "C09": instr([part("e1", "^TestC09$", 2500, 60000, steps=60, tsteps=90)], E1_RULE + "Generator weighted to constructors x boundary TTLs/defaults x GetWithExpiration/GetWithTTL/SetDefaultExpiration. Oracle: exact instants from the TTL model."),
-    "C16": instr([part("stall", "^TestC16$", 250, 2000)],
+    "C16": instr([part("stall", "^TestC16$", 400, 2000)],
                  "Cases are generated programs of one modifying call W (every mutator, Clear, Range, grow-triggering insert and shrink-triggering delete via fill steering, "
                  "Compute/GetOrCompute/LoadOrCompute whose user function calls vs.Park()) and 1-3 lookups R (Load, hit path of LoadOrStore/LoadOrCompute on a stable key, "
                  "Get, GetWithExpiration, GetWithTTL, Size/Count) on the same key, bucket mates (density / colliding hashers) and unrelated keys, present-and-unexpired or absent; "
@@ -147,5 +147,5 @@ PROPS = {
                  "re-run once in isolation; only a repeated miss is a violation. evaluations = cases; non-trivial = janitor configured with >= 1 expiring entry, or >= 2 caches dropped; "
                  "distinct by hash of the configuration.",
                  assumptions=["Real time and the real GC: deadlines (5 s / 10 s) are > 100x the latencies measured in this sandbox (18 ms / 6 ms)."]),
-    "C13": instr([part("e2", "^TestC13$", 300, 2500)], E2_RULE + "Weights on Clear, Range, resize triggers, re-entrant callbacks. Oracle: scheduler deadlock detector (some thread unfinished, none runnable), no-progress detector (step budget 60x the non-preemptive run + 20000), quiescent read-back touching every bucket lock. " + LIN),
+    "C13": instr([part("e2", "^TestC13$", 450, 2500)], E2_RULE + "Weights on Clear, Range, resize triggers, re-entrant callbacks. Oracle: scheduler deadlock detector (some thread unfinished, none runnable), no-progress detector (step budget 60x the non-preemptive run + 20000), quiescent read-back touching every bucket lock. " + LIN),
 }
